@@ -23,13 +23,21 @@ import (
 func init() { suites["c11"] = c11 }
 
 type memFS struct {
-	mu sync.Mutex
-	n  int
+	mu    sync.Mutex
+	n     int
+	keep  bool
+	files map[string][]byte
 }
 
 func (m *memFS) WriteFile(name string, content []byte) error {
 	m.mu.Lock()
 	m.n++
+	if m.keep {
+		if m.files == nil {
+			m.files = map[string][]byte{}
+		}
+		m.files[name] = append([]byte(nil), content...)
+	}
 	m.mu.Unlock()
 	return nil
 }
@@ -113,9 +121,9 @@ func joinPtr(p npath) string {
 }
 
 type genOutcome struct {
-	kind  string // ok parse-err gen-err write-err unparsable panic timeout
-	msg   string
-	where string // first ogen frame of a panic
+	kind   string // ok parse-err gen-err write-err unparsable panic timeout
+	msg    string
+	where  string // first ogen frame of a panic
 	hasLoc bool
 }
 
@@ -269,6 +277,25 @@ func c11(r *lp.Run) {
 			b[j] = lp.Pick(rng, []byte("{}[]:,\"'-#&*!|>%@`\n \topenapi3.0$ref\\x00\xff"))
 		}
 		c11Judge(r, b, fmt.Sprintf("random bytes %q", b))
+	}
+	// the modelled components, tied in this run too: path keys and reference chains against the Lean models
+	for _, k := range hostileStrings {
+		c12One(r, k, "c11-pathkey")
+	}
+	for i := 0; i < r.N(300, 3000); i++ {
+		l := rng.Intn(10)
+		b := make([]byte, l)
+		for j := range b {
+			b[j] = lp.Pick(rng, []byte("%%%0123456789abcdefABCDEFgz-._~/"))
+		}
+		c12One(r, "/"+string(b), "c11-pathkey")
+	}
+	for i := 0; i < r.N(300, 3000); i++ {
+		c := genChain(rng)
+		out := parseChain(c)
+		if len(c.refs) == 1 {
+			r.Case("refs", c.line(), out, "c11-refchain:"+strings.SplitN(out, " ", 2)[0], true)
+		}
 	}
 	// deep nesting
 	for _, depth := range []int{100, 1000} {
